@@ -127,7 +127,11 @@ func TestC15(t *testing.T) {
 	c.Assume("the width table (harness/spec/tables.go, DESIGN.md Appendix A.3) is my transcription of OF1.3.5 and meta-flow.h",
 		"tun_metadata is variable-width (<=124 bytes): any registered width in 1..124 is accepted, but a masked lookup must return twice that width without wrapping")
 
-	names := of.VerifRegisteredFieldNames()
+	if !hooksAvailable {
+		c.Label("hooks_unavailable")
+		c.Assume("built without the verif tag (the library's hook files did not compile): registry names come from the transcribed table, stored entries and the unexported ofs_nbits helpers are reached through their public users only")
+	}
+	names := hookRegisteredNames()
 	if shard0() {
 		for _, name := range names {
 			for _, masked := range []bool{false, true} {
@@ -141,13 +145,13 @@ func TestC15(t *testing.T) {
 					}
 				}
 			}
-			c.Label("class=" + fmt.Sprintf("%#04x", func() uint16 { cl, _, _, _, _ := of.VerifRegistryEntry(name); return cl }()))
+			c.Label("class=" + fmt.Sprintf("%#04x", func() uint16 { cl, _, _, _, _ := hookRegistryEntry(name); return cl }()))
 		}
 		c.LabelN("registered_names", int64(len(names)))
 		// after all the scribbling the stored entries still equal the table
 		for _, name := range names {
 			c.Eval()
-			cl, fi, ln, hm, _ := of.VerifRegistryEntry(name)
+			cl, fi, ln, hm, _ := hookRegistryEntry(name)
 			if want, info, ok := c15Expect(name, false); ok && !info.Variable && (cl != want.class || fi != want.field || ln != want.length || hm) {
 				if !c.IsKnown("C15|lookup|width|" + name) {
 					c.Report(nil, "C15|registry|entry-changed|"+name, fmt.Sprintf("stored entry of %s is now class %#x field %d length %d mask %v", name, cl, fi, ln, hm), name)
@@ -222,7 +226,7 @@ func TestC15(t *testing.T) {
 			}
 		}
 		for _, name := range names {
-			cl, fi, ln, hm, _ := of.VerifRegistryEntry(name)
+			cl, fi, ln, hm, _ := hookRegistryEntry(name)
 			if want, info, ok := c15Expect(name, false); ok && (cl != want.class || fi != want.field || hm || (!info.Variable && ln != want.length) || (info.Variable && (ln < 1 || int(ln) > info.Width))) {
 				c.Report(rt, "C15|registry|entry-changed", fmt.Sprintf("after history %v the stored entry of %s is class %#x field %d length %d mask %v", hist, name, cl, fi, ln, hm), hist)
 				return
@@ -342,7 +346,7 @@ func TestC15Words(t *testing.T) {
 func TestC15Race(t *testing.T) {
 	c := ev.For("C15")
 	defer c.Done()
-	names := of.VerifRegisteredFieldNames()
+	names := hookRegisteredNames()
 	rounds := ev.Scale(30, 400)
 	seed := uint64(envInt("VERIF_SEED", 1))*7919 + uint64(envInt("VERIF_SHARD", 0))
 	for r := 0; r < rounds; r++ {
